@@ -28,6 +28,9 @@ ORACLES = [
     (r'oracle :: impl (From<Timestamp> for Date|Date / fn (try_from_usecs|is_valid_date|new))', ['od_from_timestamp']),
     (r'oracle :: impl Date / fn add_days|kani::od_add_days', ['od_add_days']),
     (r'timestamp :: impl Timestamp / fn add_days|kani::ts_add_days', ['ts_add_days']),
+    (r'impl Date / fn and_hms|impl From<Timestamp> for Time / fn from', ['and_hms']),
+    (r'impl (Date|Timestamp) / fn (add_time|sub_time|sub_timestamp|sub_date|add_interval_dt|sub_interval_dt)|impl Interval(DT|YM) / fn (add|sub)_interval_(dt|ym)|impl (Timestamp|IntervalDT|IntervalYM) / fn try_from_(usecs|months)', ['linear_arith']),
+    (r'impl Partial(Eq|Ord)<\w+> for \w+ / fn (eq|partial_cmp)', ['mixed_cmp']),
     (r'impl TryFrom<&?NaiveDateTime> for (IntervalDT|Time|Timestamp) / fn try_from', ['naive_carry']),
     (r'kani::(parse_ind|parse_pic|parse_glue|parse_one_field|scan_|token_roundtrip)|impl TryFrom<&?NaiveDateTime> for (Date|Time|Timestamp) / fn try_from|format :: impl NaiveDateTime / fn adjust_hour12', ['parse_grid']),
     (r'kani::(fmt_glue|fmt_tokens|tables_|week_day_name|naive_fraction|write_u32)|impl From<(Date|Time|Timestamp|IntervalDT)> for NaiveDateTime / fn from|format :: impl NaiveDateTime / fn |common :: fn the_day_of_year', ['format_grid']),
